@@ -17,20 +17,26 @@ import (
 func ZzC16Move() {
 	ctx := context.Background()
 	K := zz.Param("K", 6)
+	// AHEAD: the network head may lie up to AHEAD headers above the local head (a node that was offline)
+	AHEAD := zz.Param("AHEAD", 0)
 	now := time.Now()
 	const bt = 10 * time.Second
-	chain := make([]*zh.Hdr, K)
+	chain := make([]*zh.Hdr, K+AHEAD)
 	for i := range chain {
-		chain[i] = &zh.Hdr{Chain: "c", H: uint64(i + 1), T: now.Add(-time.Duration(K-i) * bt), ID: i + 1, Prev: i}
+		chain[i] = &zh.Hdr{Chain: "c", H: uint64(i + 1), T: now.Add(-time.Duration(K+AHEAD-i) * bt), ID: i + 1, Prev: i}
 	}
 	// the store holds chain[lo..hi]
 	lo := zz.Choice("store.lo", K)
 	hi := lo + zz.Choice("store.hi", K-lo)
+	hd := hi // index of the network head the tail is recomputed for
+	if AHEAD > 0 {
+		hd = hi + zz.Choice("head.ahead", AHEAD+1)
+	}
 	st := zzNewSpecStore()
 	st.Append(ctx, chain[lo:hi+1]...)
 	g := &zzGetter{}
 	g.getByHeight = func(_ context.Context, h uint64) (*zh.Hdr, error) {
-		if h < 1 || h > uint64(K) {
+		if h < 1 || h > uint64(len(chain)) {
 			return nil, header.ErrNotFound
 		}
 		return chain[h-1], nil
@@ -44,12 +50,12 @@ func ZzC16Move() {
 		return nil, header.ErrNotFound
 	}
 	g.getRange = func(_ context.Context, from *zh.Hdr, to uint64) ([]*zh.Hdr, error) {
-		if to <= from.H+1 || from.H+1 > uint64(K) {
+		if to <= from.H+1 || from.H+1 > uint64(len(chain)) {
 			return nil, header.ErrNotFound
 		}
 		e := to - 1
-		if e > uint64(K) {
-			e = uint64(K)
+		if e > uint64(len(chain)) {
+			e = uint64(len(chain))
 		}
 		return chain[from.H:e], nil
 	}
@@ -58,18 +64,30 @@ func ZzC16Move() {
 	want := -1 // index the tail is configured to, -1: computed from the window
 	switch zz.Choice("mode", 3) {
 	case 0:
-		want = zz.Choice("height", hi+1) // any height up to the store head: above, at or below the old tail
+		want = zz.Choice("height", hd+1) // any height up to the network head: above, at or below the old tail
 		p.SyncFromHeight = uint64(want + 1)
 	case 1:
-		want = zz.Choice("hash", hi+1)
+		want = zz.Choice("hash", hd+1)
 		p.SyncFromHash = hex.EncodeToString(chain[want].Hash())
 	default:
-		p.PruningWindow = time.Duration(1+zz.Choice("window", K+1)) * bt
+		p.PruningWindow = time.Duration(1+zz.Choice("window", K+AHEAD+1)) * bt
 	}
 	zz.Assert(p.Validate() == nil, "parameters are valid")
 	s := &Syncer[*zh.Hdr]{store: syncStore[*zh.Hdr]{Store: st}, getter: g, Params: &p, triggerSync: make(chan struct{}, 1)}
 	s.ctx = ctx
-	head := chain[hi]
+	head := chain[hd]
+	// where the tail has to go: the configured header, or the oldest header inside the window (never below the old tail)
+	target := want
+	if want < 0 {
+		cut := head.T.Add(-p.PruningWindow)
+		target = lo
+		for target < hd && chain[target].T.Before(cut) {
+			target++
+		}
+	}
+	if hd > hi {
+		zz.Reach("head-ahead")
+	}
 
 	tail, err := s.subjectiveTail(ctx, head)
 	zz.ObserveBool("err_nil", err == nil)
@@ -80,7 +98,16 @@ func ZzC16Move() {
 	if zz.Known("C16-move-down-onto-single-header", want >= 0 && lo == hi && want == lo-1) {
 		zz.Reach("single-header-store")
 	}
+	// known finding: the new tail lies beyond the local chain (above local head + 1): renewTail fetches it and
+	// forces it into the Store as a detached header, then moveTail asks for DeleteRange(old tail, new tail),
+	// which the Store refuses ("beyond current head+1")
+	if zz.Known("C16-new-tail-beyond-local-head", target > hi+1) {
+		zz.Reach("tail-beyond-local-head")
+	}
 	zz.Assert(err == nil, "recomputing the tail from a valid configuration succeeds (Head()/Start are not wedged)")
+	if err != nil && target > hi+1 {
+		return // the refused move leaves the fetched tail behind as a detached header: same finding, nothing more to check
+	}
 	zz.Assert(st.zzContiguous(), "the Store stays one gap-free chain")
 	t2, e2 := st.Tail(ctx)
 	h2, e3 := st.Head(ctx)
@@ -88,7 +115,9 @@ func ZzC16Move() {
 	if err != nil || e2 != nil {
 		return
 	}
-	zz.Assert(h2.H == head.H, "the head is untouched")
+	if target <= hi {
+		zz.Assert(h2.H == chain[hi].H, "the head is untouched")
+	}
 	if want >= 0 {
 		if want < lo {
 			zz.Reach("moved-down")
